@@ -930,7 +930,7 @@ def main():
         groups = (build_syntax_groups(chk) + build_eoi_groups(chk) + build_literal_groups(chk) + build_garbage_groups(chk, gspans) + build_runtime_groups(chk)
                   + build_matrix_groups(chk) + build_lazy_groups(chk) + build_recursion_groups(chk) + build_lineending_groups(chk)
                   + build_expr_groups(chk) + build_fuel_groups(chk))
-        add_prefix_variants(chk, groups, 1, 1 if chk.thorough else 4)
+        add_prefix_variants(chk, groups, 1, 2 if chk.thorough else 4)
         add_prefix_variants(chk, [g for g in groups if g.get("construct", "").startswith("lazy-")], 1, 1)
         tabcases = build_table_cases(chk)
         tokcases = None
